@@ -90,6 +90,11 @@ theorem C03_parseValue_total_current (bytes : List UInt8) (tail : Tail) :
     (parseValue genCM bytes tail).2.oof = false :=
   C03_parseValue_total genCM gen_numStart_isNum_all bytes tail
 
+/-- **C03 for request documents on the tables of this run** -/
+theorem C03_parseExe_total_current (bytes : List UInt8) (tail : Tail) :
+    (ExeCF.parseExe genCM { varTypeOptional := Gen.exeVarTypeOptional } (sdlFuel bytes) bytes tail).2.oof = false :=
+  C03_parseExe_total genCM gen_numStart_isNum_all _ bytes tail
+
 /-- white space is never a token character (so a token ends at the first blank) -/
 theorem gen_space_not_token : (List.range 256).all (fun n => !(genCM.isSpace (UInt8.ofNat n) && genCM.isToken (UInt8.ofNat n))) = true := by
   decide +kernel
